@@ -1127,6 +1127,7 @@ fn run(c: &Case) -> Obs {
         "sfw" => run_sfw(c),
         "lzg" => run_lzg(c),
         "hco" => run_hco(c),
+        "rtl" => run_rtl(c),
         _ => Obs { obs: "-".into(), verdict: "skip".into(), nontrivial: false },
     }
 }
@@ -1134,4 +1135,5 @@ fn run(c: &Case) -> Obs {
 include!("c06_part4.rs");
 include!("c06_part5.rs");
 include!("c06_part6.rs");
+include!("c06_part7.rs");
 include!("c06_part3.rs");
